@@ -167,106 +167,129 @@ func OpTable(w *load.World, c *core.Collector) {
 		c.Add("OPTABLE", "anchor:RangeScan", core.Undecided, w.Position(f.Pos()), "no RangeScan call in Search", props...)
 		return
 	}
-	// symbolic description of a key operand
-	var describe func(v ssa.Value) string
-	describe = func(v ssa.Value) string {
-		if ssax.IsNilConst(v) {
-			return "nil"
-		}
-		if b, ok := ssax.ConstBool(v); ok {
-			return fmt.Sprint(b)
-		}
-		o := ssax.Prov(v)
-		isKey := false
-		for k := range o {
-			if strings.Contains(k, "toByteSortable") {
-				isKey = true
-			}
-		}
-		switch {
-		case isKey && o[pQuery] && !o[pEnd]:
-			return "key(value)"
-		case isKey && o[pEnd] && !o[pQuery]:
-			return "key(endValue)"
-		}
-		return "?" + strings.Join(o.Keys(), ",")
-	}
 	// Partial evaluation of Search with the operator fixed to one constant: branches on the
 	// operator are decided, error branches of fallible calls are not taken, phis are resolved by
 	// the edge actually travelled. What reaches RangeScan on that run is what the operator scans.
-	type triple [3]string
-	runFor := func(opConst string) (map[triple]bool, string) {
-		results := map[triple]bool{}
+	// A helper of the package that receives the operator and hands back the bounds
+	// ("lower, upper, closed, err := rangeBounds(operator, key, endQuery)") is evaluated the same
+	// way, with its parameters standing for the caller's arguments.
+	type peCtx struct {
+		fn      *ssa.Function
+		op      ssa.Value // the operator in fn
+		parent  *peCtx
+		args    []ssa.Value            // caller's arguments (resolved in the caller) when parent != nil
+		pchoice map[*ssa.Phi]ssa.Value // the caller's phi choices at the call
+	}
+	type pePath struct {
+		scanArgs []ssa.Value // set when the path reached the scan
+		ret      *ssa.Return
+		choice   map[*ssa.Phi]ssa.Value
+	}
+	resolve := func(v ssa.Value, choice map[*ssa.Phi]ssa.Value) ssa.Value {
+		for depth := 0; depth < 8; depth++ {
+			phi, ok := v.(*ssa.Phi)
+			if !ok {
+				break
+			}
+			e, ok := choice[phi]
+			if !ok {
+				break
+			}
+			v = e
+		}
+		return v
+	}
+	// up: a parameter of a helper stands for the caller's argument
+	var up func(ctx *peCtx, v ssa.Value, choice map[*ssa.Phi]ssa.Value) (*peCtx, ssa.Value, map[*ssa.Phi]ssa.Value)
+	up = func(ctx *peCtx, v ssa.Value, choice map[*ssa.Phi]ssa.Value) (*peCtx, ssa.Value, map[*ssa.Phi]ssa.Value) {
+		v = resolve(v, choice)
+		for ctx.parent != nil {
+			p, ok := peelToParam(v).(*ssa.Parameter)
+			if !ok {
+				break
+			}
+			idx := -1
+			for i, q := range ctx.fn.Params {
+				if q == p {
+					idx = i
+				}
+			}
+			if idx < 0 || idx >= len(ctx.args) {
+				break
+			}
+			v, choice, ctx = resolve(ctx.args[idx], ctx.pchoice), ctx.pchoice, ctx.parent
+		}
+		return ctx, v, choice
+	}
+	isOp := func(ctx *peCtx, v ssa.Value, choice map[*ssa.Phi]ssa.Value) bool {
+		c2, v2, _ := up(ctx, v, choice)
+		return c2.parent == nil && v2 == ssa.Value(opParam) || v2 == c2.op
+	}
+	var evalBool func(ctx *peCtx, opConst string, v ssa.Value, choice map[*ssa.Phi]ssa.Value, depth int) (bool, bool)
+	evalBool = func(ctx *peCtx, opConst string, v ssa.Value, choice map[*ssa.Phi]ssa.Value, depth int) (bool, bool) {
+		ctx, v, choice = up(ctx, v, choice)
+		if b, ok := ssax.ConstBool(v); ok {
+			return b, true
+		}
+		if depth > 6 {
+			return false, false
+		}
+		switch x := v.(type) {
+		case *ssa.UnOp:
+			if x.Op == token.NOT {
+				if b, ok := evalBool(ctx, opConst, x.X, choice, depth+1); ok {
+					return !b, true
+				}
+			}
+		case *ssa.BinOp:
+			if x.Op == token.EQL || x.Op == token.NEQ {
+				var cs string
+				var ok bool
+				switch {
+				case isOp(ctx, x.X, choice):
+					cs, ok = ssax.ConstString(resolve(x.Y, choice))
+				case isOp(ctx, x.Y, choice):
+					cs, ok = ssax.ConstString(resolve(x.X, choice))
+				}
+				if ok {
+					return (cs == opConst) == (x.Op == token.EQL), true
+				}
+			}
+		}
+		return false, false
+	}
+	errorOnly := func(b *ssa.BasicBlock) bool {
+		// the block (possibly after straight-line code) returns a non-nil error
+		for i := 0; i < 4 && b != nil; i++ {
+			last := b.Instrs[len(b.Instrs)-1]
+			if r, ok := last.(*ssa.Return); ok {
+				for j := range r.Results {
+					if isErrorType(r.Results[j].Type()) && nonNilError(ssax.ReturnOperand(r, j), b) {
+						return true
+					}
+				}
+				return false
+			}
+			if _, ok := last.(*ssa.Jump); ok {
+				b = b.Succs[0]
+				continue
+			}
+			return false
+		}
+		return false
+	}
+	run := func(ctx *peCtx, opConst string) ([]pePath, string) {
+		var out []pePath
 		note := ""
 		type frame struct {
 			b, pred *ssa.BasicBlock
 			choice  map[*ssa.Phi]ssa.Value
 			steps   int
 		}
-		var resolve func(v ssa.Value, choice map[*ssa.Phi]ssa.Value, depth int) ssa.Value
-		resolve = func(v ssa.Value, choice map[*ssa.Phi]ssa.Value, depth int) ssa.Value {
-			if phi, ok := v.(*ssa.Phi); ok && depth < 8 {
-				if e, ok := choice[phi]; ok {
-					return resolve(e, choice, depth+1)
-				}
-			}
-			return v
+		if len(ctx.fn.Blocks) == 0 {
+			return nil, "no body"
 		}
-		var evalBool func(v ssa.Value, choice map[*ssa.Phi]ssa.Value, depth int) (bool, bool)
-		evalBool = func(v ssa.Value, choice map[*ssa.Phi]ssa.Value, depth int) (bool, bool) {
-			v = resolve(v, choice, 0)
-			if b, ok := ssax.ConstBool(v); ok {
-				return b, true
-			}
-			if depth > 6 {
-				return false, false
-			}
-			switch x := v.(type) {
-			case *ssa.UnOp:
-				if x.Op == token.NOT {
-					if b, ok := evalBool(x.X, choice, depth+1); ok {
-						return !b, true
-					}
-				}
-			case *ssa.BinOp:
-				if x.Op == token.EQL || x.Op == token.NEQ {
-					l, r := resolve(x.X, choice, 0), resolve(x.Y, choice, 0)
-					var cs string
-					var ok bool
-					switch {
-					case l == ssa.Value(opParam):
-						cs, ok = ssax.ConstString(r)
-					case r == ssa.Value(opParam):
-						cs, ok = ssax.ConstString(l)
-					}
-					if ok {
-						return (cs == opConst) == (x.Op == token.EQL), true
-					}
-				}
-			}
-			return false, false
-		}
-		errorOnly := func(b *ssa.BasicBlock) bool {
-			// the block (possibly after straight-line code) returns a non-nil error
-			for i := 0; i < 4 && b != nil; i++ {
-				last := b.Instrs[len(b.Instrs)-1]
-				if r, ok := last.(*ssa.Return); ok {
-					for j := range r.Results {
-						if isErrorType(r.Results[j].Type()) && nonNilError(ssax.ReturnOperand(r, j), b) {
-							return true
-						}
-					}
-					return false
-				}
-				if _, ok := last.(*ssa.Jump); ok {
-					b = b.Succs[0]
-					continue
-				}
-				return false
-			}
-			return false
-		}
-		work := []frame{{f.Blocks[0], nil, map[*ssa.Phi]ssa.Value{}, 0}}
+		work := []frame{{ctx.fn.Blocks[0], nil, map[*ssa.Phi]ssa.Value{}, 0}}
 		for len(work) > 0 {
 			fr := work[len(work)-1]
 			work = work[:len(work)-1]
@@ -285,22 +308,22 @@ func OpTable(w *load.World, c *core.Collector) {
 						}
 					}
 				case *ssa.Call:
-					if x == scan {
-						var t triple
-						for k := 0; k < 3; k++ {
-							v := resolve(x.Call.Args[k], choice, 0)
-							if k == 2 {
-								if b, ok := evalBool(v, choice, 0); ok {
-									t[k] = fmt.Sprint(b)
-									continue
-								}
-							}
-							t[k] = describe(v)
-						}
-						results[t] = true
+					if x == scan && ctx.parent == nil {
+						out = append(out, pePath{scanArgs: x.Call.Args, choice: choice})
 						stop = true
 					}
 				case *ssa.Return:
+					if ctx.parent != nil {
+						failing := false
+						for j := range x.Results {
+							if isErrorType(x.Results[j].Type()) && nonNilError(ssax.ReturnOperand(x, j), fr.b) {
+								failing = true
+							}
+						}
+						if !failing {
+							out = append(out, pePath{ret: x, choice: choice})
+						}
+					}
 					stop = true
 				}
 				if stop {
@@ -319,7 +342,7 @@ func OpTable(w *load.World, c *core.Collector) {
 					}
 					work = append(work, frame{fr.b.Succs[s], fr.b, nc, fr.steps + 1})
 				}
-				if b, ok := evalBool(last.Cond, choice, 0); ok {
+				if b, ok := evalBool(ctx, opConst, last.Cond, choice, 0); ok {
 					if b {
 						next(0)
 					} else {
@@ -339,6 +362,122 @@ func OpTable(w *load.World, c *core.Collector) {
 				}
 			case *ssa.Jump:
 				work = append(work, frame{fr.b.Succs[0], fr.b, choice, fr.steps + 1})
+			}
+		}
+		return out, note
+	}
+	// the labels of a value in terms of the root function's parameters
+	var labels func(ctx *peCtx, v ssa.Value, choice map[*ssa.Phi]ssa.Value, depth int) map[string]bool
+	labels = func(ctx *peCtx, v ssa.Value, choice map[*ssa.Phi]ssa.Value, depth int) map[string]bool {
+		ctx, v, choice = up(ctx, v, choice)
+		out := map[string]bool{}
+		for k := range ssax.Prov(v) {
+			mapped := false
+			if ctx.parent != nil && depth < 4 && strings.HasPrefix(k, "param:") {
+				for i, q := range ctx.fn.Params {
+					if "param:"+q.Name() == k && i < len(ctx.args) {
+						for kk := range labels(ctx.parent, ctx.args[i], ctx.pchoice, depth+1) {
+							out[kk] = true
+						}
+						mapped = true
+					}
+				}
+			}
+			if !mapped {
+				out[k] = true
+			}
+		}
+		return out
+	}
+	describe := func(ctx *peCtx, v ssa.Value, choice map[*ssa.Phi]ssa.Value) string {
+		_, rv, _ := up(ctx, v, choice)
+		if ssax.IsNilConst(rv) {
+			return "nil"
+		}
+		if b, ok := ssax.ConstBool(rv); ok {
+			return fmt.Sprint(b)
+		}
+		o := labels(ctx, v, choice, 0)
+		isKey := false
+		var ks []string
+		for k := range o {
+			ks = append(ks, k)
+			if strings.Contains(k, "toByteSortable") {
+				isKey = true
+			}
+		}
+		sort.Strings(ks)
+		switch {
+		case isKey && o[pQuery] && !o[pEnd]:
+			return "key(value)"
+		case isKey && o[pEnd] && !o[pQuery]:
+			return "key(endValue)"
+		}
+		return "?" + strings.Join(ks, ",")
+	}
+	type triple [3]string
+	root := &peCtx{fn: f, op: opParam}
+	runFor := func(opConst string) (map[triple]bool, string) {
+		results := map[triple]bool{}
+		paths, note := run(root, opConst)
+		for _, pth := range paths {
+			if pth.scanArgs == nil {
+				continue
+			}
+			// a helper call that supplies the scan's arguments
+			var helper *ssa.Call
+			for k := 0; k < 3; k++ {
+				if ex, ok := resolve(pth.scanArgs[k], pth.choice).(*ssa.Extract); ok {
+					if hc, ok := ex.Tuple.(*ssa.Call); ok && hc.Call.StaticCallee() != nil && ssax.InModule(hc.Call.StaticCallee()) && load.PkgPath(hc.Call.StaticCallee()) == load.PkgPath(f) {
+						// only a helper that is handed the operator decides on it
+						for _, a := range hc.Call.Args {
+							if resolve(a, pth.choice) == ssa.Value(opParam) {
+								helper = hc
+							}
+						}
+					}
+				}
+			}
+			type argEval struct {
+				ctx    *peCtx
+				choice map[*ssa.Phi]ssa.Value
+				ret    *ssa.Return
+			}
+			evals := []argEval{{root, pth.choice, nil}}
+			if helper != nil {
+				g := helper.Call.StaticCallee()
+				hctx := &peCtx{fn: g, parent: root, args: helper.Call.Args, pchoice: pth.choice}
+				for i, a := range helper.Call.Args {
+					if i < len(g.Params) && resolve(a, pth.choice) == ssa.Value(opParam) {
+						hctx.op = g.Params[i]
+					}
+				}
+				hp, hnote := run(hctx, opConst)
+				if hnote != "" {
+					note = hnote
+				}
+				evals = nil
+				for _, h := range hp {
+					evals = append(evals, argEval{hctx, h.choice, h.ret})
+				}
+			}
+			for _, ev := range evals {
+				var t triple
+				for k := 0; k < 3; k++ {
+					v := resolve(pth.scanArgs[k], pth.choice)
+					ctx, choice := root, pth.choice
+					if ex, ok := v.(*ssa.Extract); ok && helper != nil && ex.Tuple == ssa.Value(helper) && ev.ret != nil && ex.Index < len(ev.ret.Results) {
+						v, ctx, choice = ssax.ReturnOperand(ev.ret, ex.Index), ev.ctx, ev.choice
+					}
+					if k == 2 {
+						if b, ok := evalBool(ctx, opConst, v, choice, 0); ok {
+							t[k] = fmt.Sprint(b)
+							continue
+						}
+					}
+					t[k] = describe(ctx, v, choice)
+				}
+				results[t] = true
 			}
 		}
 		return results, note
